@@ -393,7 +393,22 @@ impl<'a> PGen<'a> {
             },
             T::LNum => match self.rng.below(25) {
                 0 | 1 => self.leaf(T::LNum),
-                2 => E::List((0..self.rng.below(5)).map(|_| self.expr(T::Num, d1)).collect()),
+                2 => {
+                    let mut xs: Vec<E> = (0..self.rng.below(5)).map(|_| self.expr(T::Num, d1)).collect();
+                    // sometimes one element of the wrong kind at a random position: whatever
+                    // consumes the list fails part-way through it
+                    if !xs.is_empty() && self.rng.chance(1, 12) {
+                        let at = self.rng.usize_below(xs.len() + 1);
+                        let bad = match self.rng.below(4) {
+                            0 => st("x"),
+                            1 => E::Bool(true),
+                            2 => E::Null,
+                            _ => E::List(vec![]),
+                        };
+                        xs.insert(at, bad);
+                    }
+                    E::List(xs)
+                }
                 3 => call(id("range"), vec![num(self.rng.range(0, 7))]),
                 4 => call(id("map"), vec![self.expr(T::LNum, d1), self.expr(T::Fun, d1)]),
                 5 => bin("via", self.expr(T::LNum, d1), self.expr(T::Fun, d1)),
@@ -434,13 +449,14 @@ impl<'a> PGen<'a> {
                 20 | 21 => {
                     // the same list value reached through a route that allocates nothing new
                     let inner = self.expr(T::LNum, d1);
-                    match self.rng.below(7) {
+                    match self.rng.below(8) {
                         0 => call(lam(&["x"], id("x")), vec![inner]),
                         1 => bin("into", inner, lam(&["x"], id("x"))),
                         2 => idx(E::List(vec![inner]), num(0)),
                         3 => doblk(vec![], inner),
                         4 => dot(E::Rec(vec![RK::Static("k".into(), inner)]), "k"),
                         5 => call(id("reduce"), vec![E::List(vec![]), E::Lam(vec![Arg::Req("acc".into()), Arg::Req("x".into())], Box::new(id("acc"))), inner]),
+                        6 => bin("via", E::Rec(vec![RK::Static("items".into(), inner)]), lam(&["d"], dot(id("d"), "items"))),
                         _ => call(E::Lam(vec![], Box::new(inner)), vec![]),
                     }
                 }
